@@ -94,8 +94,9 @@ open_("L1", "C11", "a CREATE TABLE inside a transaction that is rolled back (or 
 open_("T1", "C14", "two client threads inserting into the same table lose acknowledged rows (final COUNT(*) below the number of acknowledged inserts; COUNT(*) below what was acknowledged before it started)", "O-state", "concurrent_inserts_into_one_table", "findings/T1-concurrent-inserts-into-one-table-lose-acknowledged-rows.json")
 
 # ---- open findings: E2 (crash simulator) ----
-open_("D3", "C01", "a transaction open at the crash on a table whose CREATE is still in the log makes open fail ('Table not found'): undo runs before redo", "O-open", "open_txn_on_uncheckpointed_table", "findings/D3-open-txn-on-uncheckpointed-table.json")
-open_("D3b", "C08", "an uncommitted CREATE TABLE in the log at the crash makes open fail ('Table not found' while undoing it)", "O-open", "uncommitted_create_at_crash", "findings/D3b-uncommitted-create-at-crash.json")
+fixed("D3", "C01", "04e35a2", "a transaction open at the crash on a table whose CREATE is still in the log made open fail ('Table not found'): undo runs before redo", "O-open", "findings/D3-open-txn-on-uncheckpointed-table.json")
+fixed("D3b", "C08", "04e35a2", "an uncommitted CREATE TABLE in the log at the crash made open fail ('Table not found' while undoing it)", "O-open", "findings/D3b-uncommitted-create-at-crash.json")
+fixed("D3c", "C01", "3f04a4b", "a committed CREATE TABLE logged after a CREATE of a transaction that never committed was re-created under a lower object id during redo (and the committed transactions were redone in transaction-id order, not log order): the records that followed did not find their table and open failed", "O-open", "findings/D3c-table-created-after-an-uncommitted-create-comes-back-under-another-id.json")
 open_("D22b", "C01", "a crash inside a checkpoint, between its first page write and the log truncation, loses acknowledged rows or leaves tables unreadable (logical redo over half-written pages)", "O-durability", "crash_inside_checkpoint", "findings/D22b-crash-inside-checkpoint.json")
 open_("F4", "C01", "a checkpoint taken while a transaction is open writes its uncommitted changes and discards the log: after a crash they are permanent", "O-durability", "checkpoint_with_open_txn", "findings/F4-checkpoint-with-open-txn.json")
 fixed("F5", "C02", "d9227de", "a transaction that inserted and then deleted a row and is open (or failed) at the crash left that row behind after recovery", "O-atomicity", "findings/F5-own-insert-then-delete-open-at-crash.json")
